@@ -453,6 +453,15 @@ def step (s : State) (toks : List String) : State × String :=
             | .panic => "panic")
       else (s, "bad-op")
     | _, _ => (s, "bad-op")
+  -- `reload <n>`: the file the last `resave` wrote is read again (with the registry as it is now)
+  | ["reload", n] =>
+    match s.lastPriv, n.toNat? with
+    | some hc, some _ =>
+      (s, match getServerIdentity s.suites s.reg (loadCothority hc) with
+          | .ok si => showGroup [si]
+          | .err => "err"
+          | .panic => "panic")
+    | _, _ => (s, "bad-op")
   | _ => (s, "bad-op")
 
 end Drv
